@@ -34,7 +34,7 @@ Definition take_lenient (k : N) (s : bytes) : bytes * bytes :=
 
 (* ---------- structures as they stand in the file ---------- *)
 Inductive raw :=
-| RU8 (n : N) | RU16 (n : N)
+| Rw8 (n : N) | Rw16 (n : N)
 | RBytes (b : bytes)                      (* bytes whose number is known from elsewhere *)
 | RBytes32 (b : bytes)                    (* u32 length, bytes (the code array) *)
 | RSeq (l : list raw)
@@ -44,8 +44,8 @@ Inductive raw :=
 
 Fixpoint enc_raw (r : raw) : bytes :=
   match r with
-  | RU8 n => w8 n
-  | RU16 n => w16 n
+  | Rw8 n => w8 n
+  | Rw16 n => w16 n
   | RBytes b => b
   | RBytes32 b => w32 (N.of_nat (length b)) ++ b
   | RSeq l => flat_map enc_raw l
@@ -143,15 +143,15 @@ Fixpoint rd_fmt (impl : bool) (dec : bytes -> res str) (rs : N -> N -> res cval)
 (* the description of a structure: no bytes involved *)
 Fixpoint desc_fmt (impl : bool) (dec : bytes -> res str) (rs : N -> N -> res cval) (f : fmt) (r : raw) {struct f} : res val :=
   match f, r with
-  | FU8, RU8 n => Ok (VN n)
-  | FU16, RU16 n => Ok (VN n)
-  | FFlags k, RU16 n => Ok (VN (access_back k n))
-  | FConst8 v, RU8 n => if n =? v then Ok (VN n) else Err
-  | FIdx a, RU16 i => do c <- rs a i; Ok (VC c)
-  | FOptIdx a, RU16 i => if i =? 0 then Ok (VO None) else do c <- rs a i; Ok (VO (Some c))
-  | FIdxRaw a, RU16 i => do c <- rs a i; Ok (VIx i c)
-  | FPc k, RU16 n => Ok (VPc k n)
-  | FRange, RSeq [RU16 a; RU16 l] => Ok (VRange a l)
+  | FU8, Rw8 n => Ok (VN n)
+  | FU16, Rw16 n => Ok (VN n)
+  | FFlags k, Rw16 n => Ok (VN (access_back k n))
+  | FConst8 v, Rw8 n => if n =? v then Ok (VN n) else Err
+  | FIdx a, Rw16 i => do c <- rs a i; Ok (VC c)
+  | FOptIdx a, Rw16 i => if i =? 0 then Ok (VO None) else do c <- rs a i; Ok (VO (Some c))
+  | FIdxRaw a, Rw16 i => do c <- rs a i; Ok (VIx i c)
+  | FPc k, Rw16 n => Ok (VPc k n)
+  | FRange, RSeq [Rw16 a; Rw16 l] => Ok (VRange a l)
   | FBytes _, RBytes b => Ok (VB b)
   | FSkip _, RBytes b => Ok (VB b)
   | FMutf8 _, RBytes b => do x <- dec b; Ok (VS x)
@@ -173,10 +173,10 @@ Fixpoint desc_fmt (impl : bool) (dec : bytes -> res str) (rs : N -> N -> res cva
    field, every count fits its count field, every tag is one the reader knows *)
 Fixpoint fits (impl : bool) (rs : N -> N -> res cval) (f : fmt) (r : raw) {struct f} : bool :=
   match f, r with
-  | FU8, RU8 n => n <? 256
-  | FU16, RU16 n | FFlags _, RU16 n | FIdx _, RU16 n | FOptIdx _, RU16 n | FIdxRaw _, RU16 n | FPc _, RU16 n => n <? 65536
-  | FConst8 v, RU8 n => (n =? v) && (n <? 256)
-  | FRange, RSeq [RU16 a; RU16 l] => (a <? 65536) && (l <? 65536)
+  | FU8, Rw8 n => n <? 256
+  | FU16, Rw16 n | FFlags _, Rw16 n | FIdx _, Rw16 n | FOptIdx _, Rw16 n | FIdxRaw _, Rw16 n | FPc _, Rw16 n => n <? 65536
+  | FConst8 v, Rw8 n => (n =? v) && (n <? 256)
+  | FRange, RSeq [Rw16 a; Rw16 l] => (a <? 65536) && (l <? 65536)
   | FBytes n, RBytes b | FSkip n, RBytes b | FMutf8 n, RBytes b => N.of_nat (length b) =? n
   | FBytes32, RBytes32 b => N.of_nat (length b) <? 4294967296
   | FSeq l, RSeq rl => test_all (map (fits impl rs) l) rl false
